@@ -455,12 +455,19 @@ def run(ctx):
                    "x stored-feature variants x export from a hierarchy "
                    "child; all maps [m]->[3], m<=4, via store_basin (file / "
                    "internal)"}
+    # one large input (30000 events) through this property's entry points
+    from .. import big
+    viols = list(viols) + big.violations("C07", ctx.scratch)
+    cov["big_input_events"] = big.N
     return {"level": LEVEL, "coverage": cov, "violations": viols,
             "assumptions": ["origin of 5 events (23 for the chunk-crossing "
                             "map); referrer and origin in one directory"]}
 
 
 def replay(case, ctx):
+    if case.get("kind") == "big":
+        from .. import big
+        return big.violations("C07", ctx.scratch)
     if case["kind"] == "map":
         _, vs = _map_case((case["btype"], case["seed"], ctx.scratch))
         return [v for v in vs if v["case"].get("map") == case["map"]] or vs
